@@ -53,6 +53,7 @@ R12j what will never run is not offered: when a block ends, _abort_block_interru
      the rest of the run and an accepted force never proceeds (the handler that would honour it is gone).
 """
 from __future__ import annotations
+from ..absint import sd as sd_
 
 import ast
 
@@ -385,6 +386,14 @@ def run(ctx) -> None:
             key, y, st = m.stuck[0]
             ctx.fail("R12e", f, m.g.nodes[y].ast, inst, "after an accepted force the generator comes back to the same yield with nothing "
                      f"changed: the instruction keeps waiting | history: {m.history(key)}")
+        inst = f"{vname}: an accepted force is not dropped"
+        if not m.dropped:
+            ctx.ok("R12e", inst)
+        else:
+            key, r = m.dropped[0]
+            flags = ", ".join(k for k, v in sd_(r[2]).items() if v)
+            ctx.fail("R12e", f, f.node, inst, f"the force request is accepted in a state ({flags}) in which the visitor ends without ever "
+                     f"invoking the body, also when it is entered again: the request is acknowledged and has no effect | history: {m.history(key)}")
         inst = f"{vname}: an accepted cancel keeps the body from running"
         bad = [bk for bk in m.body_states if m.cancelled(bk[2])]
         if not bad:
